@@ -361,6 +361,58 @@ def transformed_ctor_unit(ctx, u):
                               found_input=True, unit=u.name, expected="raise" if not ok_expected else "construct", observed=str(res), broken="dist-unit (oracle): Transformed constructor")
 
 
+def documented_ctor_rejections_unit(ctx, u):
+    """Constructor incompatibilities the docstrings name beyond Chain/Concatenate/Stack/Partial/Reshape (the lines no other unit reached,
+    found with a line-coverage pass over all 18 checks): a transformer / activation bijection that is not an unconditional scalar one,
+    a non-square TriangularAffine matrix, contradictory or missing Vmap axis arguments, in_axes containing unwrappables or matching no
+    leaf.  Each call must raise; the neighbouring VALID call must construct.  Oracle only."""
+    f = c08.fj()
+    fb, jnp = f["fb"], f["jnp"]
+    import jax.random as jr
+    import flowjax.wrappers as fw
+
+    k = jr.PRNGKey(0)
+    aff0 = lambda: fb.Affine(0.0, 1.0)  # noqa: E731  shape ()
+    aff2 = lambda: fb.Affine(jnp.zeros(2), jnp.ones(2))  # noqa: E731  shape (2,)
+    condb = lambda: fb.AdditiveCondition(lambda c: c.sum(), (), (2,))  # noqa: E731  conditional, shape ()
+    cases = [
+        ("Coupling(transformer of shape (2,))", lambda: fb.Coupling(k, transformer=aff2(), untransformed_dim=1, dim=3, nn_width=4, nn_depth=1), False),
+        ("Coupling(conditional transformer)", lambda: fb.Coupling(k, transformer=condb(), untransformed_dim=1, dim=3, nn_width=4, nn_depth=1), False),
+        ("Coupling(scalar unconditional transformer)", lambda: fb.Coupling(k, transformer=aff0(), untransformed_dim=1, dim=3, nn_width=4, nn_depth=1), True),
+        ("MaskedAutoregressive(transformer of shape (2,))", lambda: fb.MaskedAutoregressive(k, transformer=aff2(), dim=3, nn_width=4, nn_depth=1), False),
+        ("MaskedAutoregressive(conditional transformer)", lambda: fb.MaskedAutoregressive(k, transformer=condb(), dim=3, nn_width=4, nn_depth=1), False),
+        ("MaskedAutoregressive(scalar unconditional transformer)", lambda: fb.MaskedAutoregressive(k, transformer=aff0(), dim=3, nn_width=4, nn_depth=1), True),
+        ("BlockAutoregressiveNetwork(activation bijection of shape (2,))", lambda: fb.BlockAutoregressiveNetwork(k, dim=2, depth=1, block_dim=2, activation=aff2()), False),
+        ("BlockAutoregressiveNetwork(conditional activation bijection)", lambda: fb.BlockAutoregressiveNetwork(k, dim=2, depth=1, block_dim=2, activation=condb()), False),
+        ("BlockAutoregressiveNetwork(scalar activation bijection)", lambda: fb.BlockAutoregressiveNetwork(k, dim=2, depth=1, block_dim=2, activation=fb.LeakyTanh(3.0)), True),
+        ("TriangularAffine(arr of shape (2,3))", lambda: fb.TriangularAffine(jnp.zeros(2), jnp.ones((2, 3))), False),
+        ("TriangularAffine(arr of shape (3,))", lambda: fb.TriangularAffine(jnp.zeros(3), jnp.ones(3)), False),
+        ("TriangularAffine(arr of shape (2,2,2))", lambda: fb.TriangularAffine(jnp.zeros(2), jnp.ones((2, 2, 2))), False),
+        ("TriangularAffine(arr of shape (2,2))", lambda: fb.TriangularAffine(jnp.zeros(2), jnp.eye(2) + 1.0), True),
+        ("Vmap(in_axes and axis_size both given)", lambda: fb.Vmap(aff0(), in_axes=None, axis_size=3) if False else fb.Vmap(aff0(), in_axes=0, axis_size=3), False),
+        ("Vmap(neither in_axes nor axis_size)", lambda: fb.Vmap(aff0()), False),
+        ("Vmap(axis_size=3)", lambda: fb.Vmap(aff0(), axis_size=3), True),
+        ("Vmap(in_axes matching no array leaf)", lambda: fb.Vmap(fb.Exp(()), in_axes=0), False),
+        ("Vmap(in_axes containing an unwrappable)", lambda: fb.Vmap(aff0(), in_axes=fw.NonTrainable(0)), False),
+        ("Vmap(in_axes of an unsupported type)", lambda: fb.Vmap(aff0(), in_axes="0"), False),
+    ]
+    for name, mk, ok_expected in cases:
+        u.count(f"doc-ctor|{name}", nontrivial=not ok_expected, tag="documented-ctor-rejections")
+        try:
+            b = mk()
+            res = ("ok", f"shape {tuple(b.shape)}")
+        except Exception as e:  # noqa: BLE001
+            res = ("err", f"{type(e).__name__}: {str(e)[:80]}")
+        bad = None
+        if not ok_expected and res[0] == "ok":
+            bad = f"{name} was constructed ({res[1]}) although the constructor documents this argument combination as unsupported"
+        elif ok_expected and res[0] == "err":
+            bad = f"{name} (valid) raised {res[1]}"
+        if bad:
+            ctx.violation(sig=f"ctor-doc:{name.split('(')[0]}:{'accepted' if not ok_expected else 'rejected'}", what=bad, case=dict(unit="documented-ctor-rejections", call=name),
+                          found_input=True, unit=u.name, expected="raise" if not ok_expected else "construct", observed=str(res), broken="ctor-unit (oracle): documented constructor incompatibilities")
+
+
 def run(ctx):
     import warnings
 
@@ -446,6 +498,7 @@ def run(ctx):
         c08.check_tree(ctx, uk, G.bad_ctor(), rng, "ctor", with_oracle=True)
     dist_unit(ctx, ud)
     transformed_ctor_unit(ctx, ud)
+    documented_ctor_rejections_unit(ctx, uk)
     ctx.assumptions += [
         "all axis sizes >= 1 (zero-sized axes are outside the model)",
         "classes without a model leaf (Exp, Tanh, splines, Planar, Coupling, MAF, BNAF, ...) are serialised as opaque identity leaves: "
